@@ -73,7 +73,24 @@ theorem flags_rt (a l : Layer) :
     (decodeFlags a (encodeFlags l)).isAlphaLocked = l.isAlphaLocked := by
   rw [decodeFlags_encodeFlags]; exact ⟨rfl, rfl, rfl, rfl, rfl⟩
 
-/-- **header round trip**: buffer type, ice / palette / font mode and the buffer size -/
+/-- the four header-mode enums of src/buffers.rs, over the `to_byte` / `from_byte` tables regenerated from the source:
+    the byte written for a variant is read back as that variant, for EVERY variant of `BufferType` (through `as u16` /
+    `as u8`), `IceMode`, `PaletteMode`, `FontMode` (the quantifier is the finite variant table) -/
+theorem mode_tables_rt :
+    (∀ v, v < bufferTypeVariants.length → bufferTypeOfByte (bufferTypeByte v % 65536 % 256) = v) ∧
+    (∀ v, v < iceModeVariants.length → iceModeOfByte (iceModeByte v % 256) = v) ∧
+    (∀ v, v < paletteModeVariants.length → paletteModeOfByte (paletteModeByte v % 256) = v) ∧
+    (∀ v, v < fontModeVariants.length → fontModeOfByte (fontModeByte v % 256) = v) :=
+  ⟨bufferType_table_rt, iceMode_table_rt, paletteMode_table_rt, fontMode_table_rt⟩
+
+/-- `from_byte` is total on bytes: every byte value is read as one of the enum's variants (the `_` arm), so a loaded
+    header is always a `WfHeader` as far as the modes go -/
+theorem mode_tables_total : ∀ b, b < 256 →
+    bufferTypeOfByte b < bufferTypeVariants.length ∧ iceModeOfByte b < iceModeVariants.length ∧
+    paletteModeOfByte b < paletteModeVariants.length ∧ fontModeOfByte b < fontModeVariants.length := by
+  decide +kernel
+
+/-- **header round trip**: buffer type, ice / palette / font mode (every variant) and the buffer size -/
 theorem header_rt (h : Header) (hw : WfHeader h) : decodeHeader (encodeHeader h) = .ok h :=
   decodeHeader_encode h hw
 
@@ -181,7 +198,11 @@ example : (encodeLayer exLayer).map (·.map List.length) = some [90] := by decid
 example : (decodeLayer ((encodeLayer exLayer).getD [])).bind (fun l => Res.ok (visAt l 1 1)) = .ok (some ⟨66, 255, 255, 255, 0⟩) := by
   decide
 
+/-- Viewdata / Ice / Free16 / FixedSize: the last variant of every enum -/
 example : WfHeader ⟨4, 2, 3, 3, 200, 120⟩ := by decide
+example : (bufferTypeVariants.getD 4 "", iceModeVariants.getD 2 "", paletteModeVariants.getD 3 "", fontModeVariants.getD 3 "") =
+    ("Viewdata", "Ice", "Free16", "FixedSize") := by decide
+example : initialHeader = ⟨1, 0, 1, 1, 80, 25⟩ := by decide
 example : decodeHeader (encodeHeader ⟨4, 2, 3, 3, 200, 120⟩) = .ok ⟨4, 2, 3, 3, 200, 120⟩ := header_rt _ (by decide)
 
 /-- a document with two layers, a non-default palette, two font slots (0 and 300) and SAUCE, over transparent
